@@ -1,4 +1,4 @@
-(* OCaml printer for the extracted [eval_manifest] (C12).  Paste into the model driver after
+(* OCaml printer for the extracted [eval_manifest] and [spec_manifest] (C12).  Paste into the model driver after
    the helpers int_of_n / int_of_nat / int_of_z / nat_of_int / bytes_of_hex / hex_of_bytes /
    split_ws of extract/model_run.ml; component name "manifest".
    Input line : <root-name-hex> <n> <name1-hex> <content1-hex> ...
@@ -40,10 +40,10 @@ let manifest_file_map (w : string list) : (n list -> n list option) =
 let manifest_paths (l : n list list) : string =
   String.concat "" (string_of_int (List.length l) :: List.map (fun p -> " " ^ hex_of_bytes p) l)
 
-let manifest_line (include_fuel : int) (l : string) : string =
+let manifest_line_with evalf (include_fuel : int) (l : string) : string =
   match split_ws l with
   | root :: _n :: rest ->
-    (match eval_manifest (manifest_file_map rest) (nat_of_int include_fuel) (bytes_of_hex root) with
+    (match evalf (manifest_file_map rest) (nat_of_int include_fuel) (bytes_of_hex root) with
      | Err (_, _, E_fatal_cycle) -> "FATAL cycle"
      | Err (_, _, E_fatal_version) -> "FATAL version"
      | Err (_, _, (E_include_fuel | E_overrun | E_loop_fuel | E_lookup_fuel as c)) ->
@@ -72,3 +72,8 @@ let manifest_line (include_fuel : int) (l : string) : string =
          g.g_edges;
        Buffer.contents b)
   | _ -> "BADLINE"
+
+(* component "manifest": the model of the code; component "manifest_spec": the reference
+   evaluator written from the manual (same line format) *)
+let manifest_line = manifest_line_with eval_manifest
+let manifest_spec_line = manifest_line_with spec_manifest
